@@ -5,7 +5,7 @@ import random
 import warnings
 from fractions import Fraction as F
 
-from harness import core, tlc, tracecheck, gen_trackers
+from harness import apalache, core, tlc, tracecheck, gen_trackers
 from harness.fieldp import qpair
 
 PID = "C12"
@@ -141,6 +141,14 @@ def run(tier, seed):
         raise tlc.TLCError("specification violates its own property %s\n%s" % (r.violated, r.counterexample))
     ctx.exhaustive = True
 
+    # update sequences of ANY length: the counting skeleton (keys never dropped, count = calls, per-key count = calls since
+    # the key first appeared) is an inductive invariant (Apalache), on a skeleton TLC shows to be the counting part of MVUpd
+    rr = tlc.require_ok(tlc.run("MC_MVIndTLC", "MC_MVIndTLC", tag="c12ind"), "MC_MVIndTLC")
+    if rr.status != "ok":
+        raise tlc.TLCError("MVInd violates %s" % rr.violated)
+    ctx.add_tlc("MC_MVIndTLC: SkeletonIsMVUpd IndInv PerKeySinceFirst KeysMonotone", rr)
+    apalache.inductive(ctx, "MC_MVInd", "CInitOK", "IndInit", "IndInv", "PerKeySinceFirst", "3 keys, any number of updates",
+                       negative_cinit="CInitBug")
     cfg = "MC_MultiValue_emit" if quick else "MC_MultiValue_emit_t"
     r = tlc.require_ok(tlc.run("MC_MultiValue", cfg, workers=1, tag="c12emit"), cfg)
     states = r.json_prints()
